@@ -50,7 +50,7 @@ func c17Sequential(c *ctx, seed uint64, size, n int, kind string) {
 	var objs []interface{}
 	held := map[int][]int{} // client -> objects held
 	holder := map[int]int{} // object -> client
-	var idle []int           // the harness's own expectation of the pool's content (FIFO)
+	var idle []int          // the harness's own expectation of the pool's content (FIFO)
 	var ops, res []string
 	in := map[string]interface{}{"op": "pool-seq", "pseed": seed, "size": size, "n": n, "kind": kind}
 	for i := 0; i < n; i++ {
